@@ -37,6 +37,13 @@ impl SwiftField for Field11R {
     where
         Self: Sized,
     {
+        // The parser works with byte offsets: refuse multi-byte characters up front
+        if !input.is_ascii() {
+            return Err(ParseError::InvalidFormat {
+                message: "Field 11R must contain only ASCII characters".to_string(),
+            });
+        }
+
         let mut remaining = input;
 
         // Parse message type (3!n)
@@ -182,6 +189,13 @@ impl SwiftField for Field11S {
     where
         Self: Sized,
     {
+        // The parser works with byte offsets: refuse multi-byte characters up front
+        if !input.is_ascii() {
+            return Err(ParseError::InvalidFormat {
+                message: "Field 11S must contain only ASCII characters".to_string(),
+            });
+        }
+
         let mut remaining = input;
 
         // Parse message type (3!n)
@@ -390,6 +404,13 @@ impl SwiftField for Field11 {
     where
         Self: Sized,
     {
+        // The parser works with byte offsets: refuse multi-byte characters up front
+        if !input.is_ascii() {
+            return Err(ParseError::InvalidFormat {
+                message: "Field 11 must contain only ASCII characters".to_string(),
+            });
+        }
+
         // Field 11 requires at least 9 characters (3 for MT + 6 for date)
         if input.len() < 9 {
             return Err(ParseError::InvalidFormat {
